@@ -8,12 +8,17 @@ import cli_cfg
 def replay(prop, path, vxname):
     body = json.load(open(path))
     case = body.get("case", {})
-    if "cli_c17_regen" in case or "cli_c17_else" in case or "cli_c17" in case or "cli_c18" in case or "cli_c08" in case or "cli_c08_repeat" in case or "cli_c08_show" in case or "cli_c08_tiny" in case:
+    if "cli_c18_cp" in case or "cli_c17_names" in case or "cli_c17_regen" in case or "cli_c17_else" in case or "cli_c17" in case or "cli_c18" in case or "cli_c08" in case or "cli_c08_repeat" in case or "cli_c08_show" in case or "cli_c08_tiny" in case:
         defects = cli_cfg.replay_case(prop, case)
     elif "cli_cyc_ckpt" in case:
         n, edges = case["cli_cyc_ckpt"][:2]
         r = cli_slices.cyc_ckpt_task((n, [tuple(e) for e in edges]) + tuple(case["cli_cyc_ckpt"][2:3]))
         defects = [{"sig": "cli:" + s, "detail": d} for s, d, _ in r["v"]]
+    elif "cli_big_cycle" in case:
+        r = cli_slices.big_cycle_task(case["cli_big_cycle"])
+        defects = [{"sig": "cli:" + s, "detail": d} for s, d, _ in r["v"]]
+    elif "cli_c10_symlinks" in case:
+        defects = [{"sig": "cli:" + s, "detail": d} for s, d in cli_slices.c10_symlink_task(0)]
     elif "cli_symlink_targets" in case:
         r = cli_slices.symlink_targets_task(case["cli_symlink_targets"])
         defects = [{"sig": "cli:" + s, "detail": d} for s, d, _ in r["v"]]
